@@ -20,9 +20,10 @@ RULE = (
     "temporaries that depend only on the control / calibration / dt, definitions whose symbols carry sympy assumptions "
     "(real=True / finite=True on all or on some symbols), and a block-size sweep (1..8 states, dense rows, rows with more "
     "temporaries than statements). One ui.Model object (and one set of noise / sensor dictionaries) is also compiled four times with different calibration maps and CSE settings; every compiled object is checked against ITS calibration right after compiling and again after all were compiled. "
+    " OPS also has one program per further elementary function (asin .. cot, atan2), linear updates with non-dyadic rational coefficients, and three programs whose intermediates overflow (exp(896)) while the value is defined. After its first compile the caller edits its own dictionaries before the compiled model is first used; the model must still be what it was compiled from."
 )
 ASSUMPTIONS = [
-    "expressions limited to the grammar (+ - * /, integer powers 2,3,-1,-2, sin cos tan atan tanh exp log sqrt), depth <= 3",
+    "expressions limited to the grammar (+ - * /, integer powers 2,3,-1,-2, sin cos tan atan tanh exp log sqrt asin acos atanh sinh cosh asinh acot sec csc cot, atan2), depth <= 3",
     "inputs on a dyadic grid; points where the reference meets a singular sub-expression are skipped and counted",
     "calibration passed as a set (ui.Model's documented default container)",
     "tolerance 1e-9 relative to max(1, |ref|)",
